@@ -1,6 +1,8 @@
 ----------------------------- MODULE GuardsGen -----------------------------
 EXTENDS Guards, Json, IOUtils, FiniteSetsExt, SequencesExt
 ASSUME TLCSet(2, {})
-Collect == TLCSet(2, TLCGet(2) \cup {[req |-> r, verdict |-> Verdict(r), doc |-> DocViolated(r)]})
+CONSTANT ExportMod
+\* all accepted and single-fault rows, and every ExportMod-th row with several faults
+Collect == (Faults(r) <= 1 \/ TLCGet("distinct") % ExportMod = 0) => TLCSet(2, TLCGet(2) \cup {[req |-> r, verdict |-> Verdict(r), doc |-> DocViolated(r), faults |-> Faults(r)]})
 Export  == ndJsonSerialize(IOEnv.OUT_FILE, SetToSeq(TLCGet(2)))
 =============================================================================
